@@ -54,6 +54,18 @@ def all_in(t, ranges):
     return z3.InRe(t, z3.Star(class_re(ranges)))
 
 
+def in_ranges(c, ranges):
+    return any(lo <= c <= hi for lo, hi in ranges)
+
+
+# character classes for which `translate` states "subject within the class => result within the class" whenever the
+# concrete table maps the class into itself (property modules may append their own classes)
+PRESERVED_CLASSES = [
+    [(0, 0x7F), (0xA0, MAXCHAR)],  # no C1 control character (U+0080..U+009F)
+    [(0, 0x7F)],  # ASCII
+]
+
+
 # ---------------------------------------------------------------------------------------------------------------------
 # str.translate
 
@@ -77,6 +89,10 @@ def _translate(it, s, table):
     it.ex.assume(z3.Length(r) == z3.Length(s.t))
     it.ex.assume(all_in(r, unmapped + [(v, v) for v in images]))
     it.ex.assume(z3.Implies(all_in(s.t, unmapped), r == s.t))
+    for R in PRESERVED_CLASSES:
+        # a character class closed under the table is preserved (exact consequence of the per-character map)
+        if all(in_ranges(v, R) for k, v in tab.items() if in_ranges(k, R)):
+            it.ex.assume(z3.Implies(all_in(s.t, R), all_in(r, R)))
     it.ex.note("assumed", "str.translate(int->int table): same length; every result character is a table image or an unmapped character; identity on subjects without mapped characters")
     return SStr(r)
 
@@ -149,3 +165,31 @@ def f_get_terminal_size(it, fallback=None):
     it.ex.assume(z3.And(cols.t >= 0, lines.t >= 0))
     it.ex.note("assumed", "shutil.get_terminal_size() returns an arbitrary pair of non-negative ints")
     return STuple([cols, lines])
+
+
+# ---------------------------------------------------------------------------------------------------------------------
+# IntEnum construction from an int that need not be a member: Enum(v) raises ValueError for non-members (exact)
+
+
+def enum_ctor_model(cls):
+    values = sorted({m.value for m in cls})
+
+    def mk(it, v):
+        v = it.resolve(v)
+        if isinstance(v, SEnum) and v.cls is cls:
+            return v
+        if not isinstance(v, SInt):
+            raise Unsupported(f"{cls.__name__}({v!r})")
+        if not it.branch(SBool(z3.Or(*[v.t == x for x in values]))):
+            it.raise_(ValueError, f"not a valid {cls.__name__}")
+        return SEnum(cls, v.t)
+
+    return mk
+
+
+try:
+    from wsproto.frame_protocol import CloseReason as _CloseReason
+
+    _lib.CLASS_MODELS[_CloseReason] = enum_ctor_model(_CloseReason)
+except ImportError:  # pragma: no cover
+    pass
